@@ -132,6 +132,12 @@ def fam_encfrag(rng, n):
         bl = rng.choice([rng.range(0, 12), rem + 7 + rng.range(-3, 3), rem + 3 + rng.range(-2, 2),
                          near(rng, 4094, 4097, 4098, 4100), rng.range(0, 6000)])
         bl = max(0, bl)
+        if i % 40 == 7:
+            # nearly a whole maximal PDU remaining (lengths of 65531 and more do not fit 16 bits once 7 is added)
+            pl = rng.range(65531, 65535)
+            lpf = rng.range(0, 4)
+            rem = pl - lpf
+            bl = rng.choice([20, 4097, 65538, 70000, rem + 7])
         if rem > 4090 and rng.chance(0.3):
             # room for a payload of 65536 bytes and more: lengths that lose their meaning when squeezed into 16 bits
             bl = rng.choice([65538, 65539, 65540, 65539 + 65536, 70000])
@@ -207,7 +213,8 @@ def malformed_packet(rng):
     if kind in "CF" and rng.chance(0.5):
         o = 0 if kind == "C" else 3
         if len(body) >= o + 2:
-            body[o:o + 2] = rng.choice([0x0100, 0x0200, 0x0300, 0x0500, 0x0005, 0x0081, 0x0042, 0x0800]).to_bytes(2, "big")
+            body[o:o + 2] = rng.choice([0x0100, 0x0200, 0x0300, 0x0500, 0x0005, 0x0081, 0x0042, 0x0800,
+                                        0x05FF, 0x04FF, 0x01FF, 0x0600, 0x00FF]).to_bytes(2, "big")     # last ids of each H-LEN class too
     if kind in "FIE" and len(body) >= 1 and rng.chance(0.6):
         body[0] = rng.below(4)
     if kind in "CF" and lt == 0 and rng.chance(0.2):
